@@ -152,6 +152,10 @@ class Generator(Curve, Point):
         """Multiply the generator by an integer."""
         return self.__mul__(e)
 
+    def __neg__(self) -> Point:
+        """Unary negation. The result is a plain :class:`Point <pycoin.ecdsa.Point.Point>`."""
+        return self.Point(self[0], self._p - self[1])  # type: ignore[arg-type,operator]
+
     def verify(self, public_pair: tuple[int, int], val: int, sig: tuple[int, int]) -> bool:
         """
         :param: public_pair: a :class:`Point <pycoin.ecdsa.Point.Point>` on the curve
